@@ -76,6 +76,10 @@ def boot():
     if _booted:
         return sys.modules['scared']
     _booted = True
+    # never write into the tree under test: numba's cache goes to /verif/.cache (also for ad-hoc interpreters that did not go through
+    # child_env), no .pyc files
+    sys.dont_write_bytecode = True
+    os.environ.setdefault('NUMBA_CACHE_DIR', os.path.join(VERIF, '.cache', 'nb', tree_hash()))
     if REPO not in sys.path:
         sys.path.insert(0, REPO)
     if VERIF not in sys.path:
